@@ -1,5 +1,100 @@
-(* STUB: Impl model of fadt.rs -- to be written *)
-From Coq Require Import NArith List.
-From ACPI Require Import Lib.Bytes Lib.Sx Lib.Machine Impl.Checksum Impl.Table Impl.Fields Impl.Run.
+(* Impl model of fadt.rs (uses gas.rs).  Case vocabulary: see Spec/FadtS.v.
+   FADTBuilder is one #[repr(C, packed)] struct of 276 bytes (header fields included), Copy; the builder methods assign
+   fields; finalize() zeroes the checksum byte, computes generate_checksum over as_bytes() and stores it.
+   The state of a history is the FADTBuilder value; an observation finalizes a copy and serialises the resulting FADT. *)
+From Coq Require Import NArith List Bool.
+From ACPI Require Import Lib.Bytes Lib.Sx Lib.Machine Impl.Checksum Impl.Table Impl.Fields Impl.Run Impl.Madt Impl.Gas.
 Import ListNotations.
-Definition fadt_case (md : mode) (c : sx) : list ev := [EvPanic].
+Open Scope N_scope.
+
+(* field indices ([u8; K] fields are one field per byte, a GAS is its five fields):
+   0..3 signature  4 length  5 major_version  6 checksum  7..12 oem_id  13..20 oem_table_id  21 oem_revision
+   22..25 creator_id  26..29 creator_revision  30 firmware_ctrl  31 dsdt  32 _reserved0  33 preferred_pm_profile
+   34 sci_int  35 smi_cmd  36 acpi_enable  37 acpi_disable  38 s4bios_req  39 pstate_cnt  40 pm1a_evt_blk  41 pm1b_evt_blk
+   42 pm1a_cnt_blk  43 pm1b_cnt_blk  44 pm2_cnt_blk  45 pm_tmr_blk  46 gpe0_blk  47 gpe1_blk  48 pm1_evt_len  49 pm1_cnt_len
+   50 pm2_cnt_len  51 pm_tmr_len  52 gpe0_blk_len  53 gpe1_blk_len  54 gpe1_base  55 cst_cnt  56 p_lvl2_lat  57 p_lvl3_lat
+   58 flush_size  59 flush_stride  60 duty_offset  61 duty_width  62 day_alrm  63 mon_alrm  64 century  65 iapc_boot_arch
+   66 _reserved1  67 flags  68..72 reset_reg  73 reset_value  74 arm_boot_arch  75 fadt_minor_version  76 x_firmware_ctrl
+   77 x_dsdt  78..82 x_pm1a_evt_blk  83..87 x_pm1b_evt_blk  88..92 x_pm1a_cnt_blk  93..97 x_pm1b_cnt_blk  98..102 x_pm2_cnt_blk
+   103..107 x_pm_tmr_blk  108..112 x_gpe0_blk  113..117 x_gpe1_blk  118..122 sleep_control_reg  123..127 sleep_status_reg
+   128 hypervisor_vendor_identity *)
+Definition I_LENGTH := 4%nat.
+Definition I_CHECKSUM := 6%nat.
+Definition I_FIRMWARE_CTRL := 30%nat.
+Definition I_DSDT := 31%nat.
+Definition I_PM_PROFILE := 33%nat.
+Definition I_ACPI_ENABLE := 36%nat.
+Definition I_ACPI_DISABLE := 37%nat.
+Definition I_GPE0_BLK := 46%nat.
+Definition I_GPE1_BLK := 47%nat.
+Definition I_GPE0_BLK_LEN := 52%nat.
+Definition I_GPE1_BLK_LEN := 53%nat.
+Definition I_GPE1_BASE := 54%nat.
+Definition I_FLAGS := 67%nat.
+Definition I_X_FIRMWARE_CTRL := 76%nat.
+Definition I_X_DSDT := 77%nat.
+
+(* FADT::len() = size_of::<FADTBuilder>() *)
+Definition FADT_LEN : N := 276.
+
+(* FADTBuilder::new: signature, versions, creator, length, oem fields; ..Default::default() *)
+Definition fadt_new_flds (oem tbl : list N) (orev : N) : flds :=
+  fbytes [70; 65; 67; 80]                                   (* b"FACP" *)
+  ++ [F 4 FADT_LEN; F 1 6; F 1 0] ++ fbytes oem ++ fbytes tbl ++ [F 4 orev] ++ fbytes CREATOR_ID ++ fbytes CREATOR_REVISION
+  ++ [F 4 0; F 4 0; F 1 0; F 1 0; F 2 0; F 4 0; F 1 0; F 1 0; F 1 0; F 1 0;
+      F 4 0; F 4 0; F 4 0; F 4 0; F 4 0; F 4 0; F 4 0; F 4 0;
+      F 1 0; F 1 0; F 1 0; F 1 0; F 1 0; F 1 0; F 1 0; F 1 0;
+      F 2 0; F 2 0; F 2 0; F 2 0; F 1 0; F 1 0; F 1 0; F 1 0; F 1 0; F 2 0; F 1 0; F 4 0]
+  ++ gas_default ++ [F 1 0; F 2 0; F 1 5; F 8 0; F 8 0]
+  ++ gas_default ++ gas_default ++ gas_default ++ gas_default ++ gas_default
+  ++ gas_default ++ gas_default ++ gas_default ++ gas_default ++ gas_default
+  ++ [F 8 0].
+
+Definition fadt_new (c : sx) : option flds :=
+  match c with
+  | SL [o; t; r] =>
+      do oem <- sx_arr 6 o; do tb <- sx_arr 8 t; do orev <- sx_num r;
+      Some (fadt_new_flds oem tb orev)
+  | _ => None
+  end.
+
+(* the 25 values of enum Flags in declaration order: Wbinvd = 1 << 0 ... LowPowerS0IdleCapable = 1 << 21,
+   PersistentCpuCachesNotReported = 0 << 22, PersistentCpuCachesNotPersistent = 1 << 22, PersistentCpuCachesArePersistent = 2 << 22 *)
+Definition flag_bits (i : N) : option N :=
+  if i <=? 21 then Some (N.shiftl 1 i)
+  else match i with
+       | 22 => Some (N.shiftl 0 22)
+       | 23 => Some (N.shiftl 1 22)
+       | 24 => Some (N.shiftl 2 22)
+       | _ => None
+       end.
+
+(* the nine builder methods *)
+Definition fadt_builder (f : flds) (o : sx) : option flds :=
+  match o with
+  | SL [SA 1; SA x] => Some (fset (fset f I_DSDT x) I_X_DSDT 0)                                 (* dsdt_32 *)
+  | SL [SA 2; SA x] => Some (fset (fset f I_DSDT 0) I_X_DSDT x)                                 (* dsdt_64 *)
+  | SL [SA 3; SA x] => Some (fset (fset f I_FIRMWARE_CTRL x) I_X_FIRMWARE_CTRL 0)               (* firmware_ctrl_32 *)
+  | SL [SA 4; SA x] => Some (fset (fset f I_FIRMWARE_CTRL 0) I_X_FIRMWARE_CTRL x)               (* firmware_ctrl_64 *)
+  | SL [SA 5] => Some (fset (fset f I_ACPI_ENABLE 1) I_ACPI_DISABLE 0)                          (* acpi_enable *)
+  | SL [SA 6] => Some (fset (fset f I_ACPI_ENABLE 0) I_ACPI_DISABLE 1)                          (* acpi_disable *)
+  | SL [SA 7; SA i] => do b <- flag_bits i; Some (f_or f I_FLAGS b)                             (* flag(Flags): flags |= bits *)
+  | SL [SA 8; SA g0; SA g1; SA l0; SA l1; SA base] =>                                            (* gpe_info *)
+      Some (fset (fset (fset (fset (fset f I_GPE0_BLK g0) I_GPE1_BLK g1) I_GPE0_BLK_LEN l0) I_GPE1_BLK_LEN l1) I_GPE1_BASE base)
+  | SL [SA 9; SA p] => if p <=? 8 then Some (fset f I_PM_PROFILE p) else None                   (* preferred_pm_profile(PmProfile) *)
+  | _ => None
+  end.
+
+(* finalize: self.checksum = 0; self.checksum = generate_checksum(self.as_bytes()) *)
+Definition fadt_finalize (f : flds) : flds :=
+  let f0 := fset f I_CHECKSUM 0 in
+  fset f0 I_CHECKSUM (generate_checksum (ser_flds f0)).
+
+(* impl Aml for FADT: sink.vec(self.table.as_bytes()) *)
+Definition fadt_image (f : flds) : list N := ser_flds (fadt_finalize f).
+
+Definition fadt_step (md : mode) (f : flds) (o : sx) : option (flds * list ev) :=
+  do f' <- fadt_builder f o; Some (f', [EvNum 0]).
+
+Definition fadt_case (md : mode) (c : sx) : list ev :=
+  run_history (fun f => Some (fadt_image f)) (fadt_step md) fadt_new c.
